@@ -179,6 +179,13 @@ func (c *updater) setAuthExternal(config ConfigValueGetter, auth *hatypes.AuthEx
 			c.logger.Warn("skipping auth-url on %s: a globally configured auth-url is missing the namespace", url.Source.String())
 			return
 		}
+		if url.Source != nil && namespace != url.Source.Namespace && !c.options.DynamicConfig.CrossNamespaceServices {
+			// the backend might already exist because another resource uses the same service,
+			// so finding it does not mean that this resource is allowed to reach it
+			c.logger.Warn("skipping auth-url on %s: trying to use service '%s/%s' from another namespace, but cross-namespace reading is disabled",
+				url.Source.String(), namespace, name)
+			return
+		}
 		backend = c.haproxy.Backends().FindBackend(namespace, name, urlPort)
 		if backend == nil {
 			// warn was already logged in the ingress if a service couldn't be found,
